@@ -5,39 +5,10 @@
 #![allow(clippy::all)]
 #![allow(dead_code)]
 
-mod common;
 
-mod c01;
-mod c02;
-mod c03;
-mod c04;
-mod c05;
-mod c06;
-mod c07;
-mod c08;
-mod c09;
-mod c09_recipe;
-mod c10;
-mod c11;
-mod c12;
-mod c13;
-mod c14;
-mod c15;
-mod c16;
-mod c17;
-mod c18;
-mod c19;
-mod gen_recipe;
-mod image;
-mod inputs;
-mod inv;
-mod model;
-mod pipeline;
-mod print;
-mod recipe_inputs;
-mod soup;
 
-use common::*;
+use veriflib::common::*;
+use veriflib::*;
 
 fn usage() -> ! {
     eprintln!("usage: verif <ID> quick|thorough | verif <ID> --replay <file>");
